@@ -64,9 +64,10 @@ def run_u(unit, want_trace=False):
     if os.path.exists(resf) and not want_trace:
         try:
             r = json.load(open(resf))
-            os.utime(udir)
-            r['cached'] = True
-            return r
+            if not (r.get('status') == 'timeout' and r.get('timeout_s', 7200) < unit.timeout):  # a longer limit may decide it
+                os.utime(udir)
+                r['cached'] = True
+                return r
         except Exception:
             pass
     os.makedirs(udir, exist_ok=True)
@@ -102,7 +103,7 @@ def run_u(unit, want_trace=False):
     except OSError:
         pass
     if rc == -9:
-        res.update(status='timeout', error='cbmc --z3 timeout after %ds' % unit.timeout)
+        res.update(status='timeout', error='cbmc --z3 timeout after %ds' % unit.timeout, timeout_s=unit.timeout)
         json.dump(res, open(resf, 'w'))
         return res
     try:
